@@ -54,14 +54,15 @@ VARIABLES sc,        \* the scenario
           start,     \* [content, mode, leftovers] as they were when the current run started
           staleLen,  \* per file: records in the temp file a killed/aborted run left behind for it (0: none or empty)
           dirty,     \* records of a stale temp file inherited by the open temp file (always 0 in the design)
+          prev,      \* history: how and where the previous run ended (names its crash point for the replay)
           temp,      \* "none", "open" (exists, partially written), "complete"
           written,   \* records handed to the temp file's buffer
           alive, exit,
           leftovers, \* temp files left behind in the directory
           last, cnt  \* history: last hook site passed, occurrences per site (names the crash point)
 
-vars == <<sc, cur, pc, content, mode, temp, written, alive, exit, leftovers, last, cnt, run, start, staleLen, dirty>>
-rvars == <<run, start, staleLen, dirty>>
+vars == <<sc, cur, pc, content, mode, temp, written, alive, exit, leftovers, last, cnt, run, start, staleLen, dirty, prev>>
+rvars == <<run, start, staleLen, dirty, prev>>
 
 Sites == {"begin", "errReturn", "tempCreated", "wrapped", "wrote", "flushed", "streamDone", "wrapperClosed",
           "closed", "renamed", "chmodded"}
@@ -82,6 +83,7 @@ InitWith(s) ==
   /\ temp = "none" /\ written = 0 /\ alive = TRUE /\ exit = "none" /\ leftovers = 0
   /\ last = "none" /\ cnt = [x \in Sites |-> 0]
   /\ run = 1 /\ staleLen = [f \in 1..Len(s.files) |-> 0] /\ dirty = 0
+  /\ prev = [how |-> "none", site |-> "none", n |-> 0]
   /\ start = [content |-> [f \in 1..Len(s.files) |-> "orig"], mode |-> [f \in 1..Len(s.files) |-> "orig"], leftovers |-> 0]
 
 Init == \E s \in Scenarios : InitWith(s)
@@ -104,7 +106,7 @@ ErrEarly == /\ alive /\ pc = "begun"
 TempCreated == /\ alive /\ pc = "begun" /\ File.kind \notin {"missing", "tempfail"} /\ ~sc.prepipe
                /\ temp' = "open" /\ pc' = "temp" /\ Hook("tempCreated")
                /\ dirty' = IF ReuseStaleTemp THEN staleLen[cur] ELSE 0
-               /\ UNCHANGED <<sc, cur, content, mode, written, alive, exit, leftovers, run, start, staleLen>>
+               /\ UNCHANGED <<sc, cur, content, mode, written, alive, exit, leftovers, run, start, staleLen, prev>>
 \* inplace.errReturn("wrap"): the temp file is removed first
 ErrWrap == /\ alive /\ pc = "temp" /\ File.kind = "wrapfail"
            /\ temp' = "none" /\ ErrorExit /\ pc' = "returned" /\ Hook("errReturn")
@@ -125,7 +127,7 @@ Flushed == /\ alive /\ pc = "stream" /\ (written >= RecsMin \/ File.kind = "writ
 Abort == /\ alive /\ pc = "stream" /\ File.kind = "abort"     \* whatever has been written so far
          /\ alive' = FALSE /\ exit' = "abort" /\ leftovers' = leftovers + 1 /\ pc' = "aborted"
          /\ staleLen' = [staleLen EXCEPT ![cur] = written]
-         /\ UNCHANGED <<sc, cur, content, mode, temp, written, last, cnt, run, start, dirty>>
+         /\ UNCHANGED <<sc, cur, content, mode, temp, written, last, cnt, run, start, dirty, prev>>
 \* inplace.errReturn("stream"): the temp file is removed first
 ErrStream == /\ alive /\ pc = "flushed" /\ File.kind \in {"streamerr", "writefail"}
              /\ temp' = "none" /\ ErrorExit /\ pc' = "returned" /\ Hook("errReturn")
@@ -160,13 +162,14 @@ Crash == /\ alive /\ last # "none"
          /\ alive' = FALSE /\ exit' = "killed"
          /\ leftovers' = IF temp # "none" THEN leftovers + 1 ELSE leftovers
          /\ staleLen' = IF temp # "none" THEN [staleLen EXCEPT ![cur] = written] ELSE staleLen
-         /\ UNCHANGED <<sc, cur, pc, content, mode, temp, written, last, cnt, run, start, dirty>>
+         /\ UNCHANGED <<sc, cur, pc, content, mode, temp, written, last, cnt, run, start, dirty, prev>>
 
 \* the second command is started on the same files: a new process, the directories as the first one left them
 Restart == /\ ~alive /\ run < MaxRuns
            /\ run' = run + 1 /\ alive' = TRUE /\ exit' = "none" /\ cur' = 0 /\ pc' = "idle" /\ temp' = "none" /\ written' = 0
            /\ last' = "none" /\ cnt' = [x \in Sites |-> 0] /\ dirty' = 0
            /\ start' = [content |-> content, mode |-> mode, leftovers |-> leftovers]
+           /\ prev' = [how |-> exit, site |-> last, n |-> IF last = "none" THEN 0 ELSE cnt[last]]
            /\ UNCHANGED <<sc, content, mode, leftovers, staleLen>>
 
 Step == Begin \/ ErrEarly \/ TempCreated \/ ErrWrap \/ Wrapped \/ Wrote \/ Flushed \/ Abort \/ ErrStream
